@@ -45,7 +45,7 @@ def run(ctx):
     nproc = 12
     chunks = [cases[i::nproc] for i in range(nproc)]
     with ThreadPoolExecutor(nproc) as ex:
-        results = list(ex.map(lambda ch: ctx.run_vh(["c04"], dict(cases=ch), timeout=3000) if ch else [], chunks))
+        results = list(ex.map(lambda ch: ctx.run_vh(["c04"], dict(cases=ch), timeout=3000, tags=("g_keccak",)) if ch else [], chunks))
     n = 0
     for res in results:
         for x in res:
@@ -68,7 +68,7 @@ def run(ctx):
 
 def replay(ctx, path):
     case = json.load(open(path))
-    res = ctx.run_vh(["c04"], case["cases"])
+    res = ctx.run_vh(["c04"], case["cases"], tags=("g_keccak",))
     bad = [x for x in res if not x["ok"]]
     for x in bad:
         print("REPRODUCED:", json.dumps(x)[:600])
